@@ -753,6 +753,7 @@ class DataboxWorld(World):
         return {"op": "import", "out": [self._name()], "args": {"path": path, "description_row": dr,
                                                                "start_period_only": rng.random() < 0.2,
                                                                "pathlike": rng.random() < 0.2,
+                                                               "name_transform": "upper" if rng.random() < 0.15 else None,
                                                                "plan": self._gen_fault_plan(flt, reading=True)}}
 
     def _gen_slate(self, actor, rng, val, flt):
@@ -793,7 +794,10 @@ class DataboxWorld(World):
                             k = rng.randint(1, 2)
                             out[nm] = {"series": {"start": a + rng.randint(-2, n - 1), "nv": k,
                                                   "values": [[self._rand_value(val) for _ in range(k)] for _ in range(rng.randint(1, 3))]}}
-            return out or None
+            # declared in an order of its own, not in the order of the requested names
+            keys = list(out)
+            rng.shuffle(keys)
+            return {k: out[k] for k in keys} or None
         fb = vals() if rng.random() < 0.4 else None
         ow = vals(True) if rng.random() < 0.3 else None
         if fb and rng.random() < 0.5:
@@ -1848,6 +1852,12 @@ class DataboxWorld(World):
             kw["start_period_only"] = True
             pred = ",".join(x for x in (pred, "start_period_only") if x)
             self.probes["import_start_period_only"] += 1
+        transform = None
+        if a.get("name_transform") == "upper" and rec is not None and rec != "torn" and len({n.upper() for n in rec.series}) == len(rec.series):
+            # the documented hook for rewriting the NAME row: names change, descriptions and everything else do not
+            kw["name_row_transform"] = str.upper
+            transform = str.upper
+            self.probes["import_name_row_transform"] += 1
         source = __import__("pathlib").Path(path) if a.get("pathlike") else path
         if rec is None or rec == "torn":
             # reading a torn file is counted, not judged - and not waited for either: garbage parsed into periods millennia
@@ -1889,6 +1899,8 @@ class DataboxWorld(World):
             self.probes["import_with_short_reads"] += 1
         if faulted:
             self.probes["import_completed_despite_fault"] += 1
+        if transform is not None:
+            rec = ExportRecord({transform(n): v for n, v in rec.series.items()}, rec.description_row, rec.round, rec.seq, rec.consecutive, rec.delimiter)
         self._check_import("import", pred, r, rec, path)
         if len(set(v[0] for v in rec.series.values() if v[0])) > 1:
             self.probes["import_multi_frequency_blocks"] += 1
